@@ -12,7 +12,13 @@ Tie:      `cprof` — the real `CacheProfiler` (counter clock) over 1-3 calls: i
                     random eviction between calls: every result vs the same computation without the cache and vs the
                     recursive evaluation; store contents and executed tasks vs the model (`cache_run`: the graph
                     patched by `_start`, then `get_async`);
-          `keylike` — cached values that look like task specs / key references (defect #33, fixed).
+          `keylike` — cached values that look like task specs / key references (defect #33, fixed);
+          `session` — a whole session under ONE real `Cache` object: 2-5 calls, each on its own sub-graph of a common
+                    DAG (graphs sharing keys), some with a failing task, random eviction between calls; the store is
+                    threaded by the MODEL (`Model/CacheSession.lean::session`, driver op `cache_session`) and compared
+                    after every call together with outcome, result and executed tasks; oracles of
+                    `Props/C52xSession.lean` evaluated directly (same values as without the Cache, nothing cached is
+                    recomputed, the store only holds the keys' values).
 """
 from __future__ import annotations
 
@@ -26,7 +32,7 @@ from props import _sched_util as U
 PROP = "C52"
 READY = True
 DRIVER = "dm_sched"
-LEAN_MODULES = ["DaskModel.Props.C52"]
+LEAN_MODULES = ["DaskModel.Props.C52", "DaskModel.Props.C52xSession"]
 CASE_TIMEOUT_S = 30
 LEVEL_TEXT = (
     "Lean 4 theorems: (Profiler, modelled as a fold over the scheduler's callback log) for every event sequence "
@@ -41,7 +47,13 @@ LEVEL_TEXT = (
     "f5744ad) the graph in which cached keys are replaced by their cached values denotes the same values "
     "(patch_isDen), so a computation with the Cache active returns what the original graph denotes for every "
     "completion order (cache_transparent), and everything _posttask stores - under any eviction - is again a denoted "
-    "value, so reuse in later computations is sound (cache_store_stays_sound, storeAfter_sound).")
+    "value, so reuse in later computations is sound (cache_store_stays_sound, storeAfter_sound). (Session, "
+    "Props/C52xSession) for any number of calls under one Cache object - each with its own graph, request, workers, batch "
+    "size, completion order, after any eviction, starting from any sound store, the graphs agreeing on what shared keys "
+    "denote - every call raises no internal scheduler error, returns when it ends normally the denoted values "
+    "(cache_session_transparent) = what the same call returns without the Cache for any completion order "
+    "(cache_session_eq_uncached), fires only tasks whose result is not in the store, and leaves a sound store, also "
+    "after failed calls (cacheCall_spec); the agreement assumption is necessary (session_needs_common_denotation).")
 LEVEL_NOTE = (
     "Not modelled: ResourceProfiler (psutil absent), ProgressBar output, cachey's cost-based eviction policy "
     "(eviction is an arbitrary sub-store), wall-clock values (any non-decreasing clock). The `cachey` package is "
@@ -341,6 +353,113 @@ def case_cache(ctx, inp):
     ctx.branch("cache:" + "+".join(sorted({c["sched"] for c in inp["calls"]})))
 
 
+def case_session(ctx, inp):
+    """one real Cache object over several calls on sub-graphs of one DAG; the model threads the store itself"""
+    from core import enable_stubs
+    enable_stubs()
+    from dask._task_spec import DataNode
+    from dask.cache import Cache
+    from dask.local import get_sync
+    dag = inp["dag"]
+    nodes = dag["nodes"]
+    rng = random.Random(inp["seed"])
+    ev = U.reference_eval(dag)
+    cache = Cache(1e9)
+    enc_all = U.enc_nodes(dag)
+    model_calls, observed, ties_any = [], [], False
+    for call in inp["calls"]:
+        flat = list(U.flatten_req(call["req"]))
+        sub = U.needed_ids(dag, flat + list(call.get("extra", [])))
+        fails = {int(k): v for k, v in call.get("fails", {}).items() if int(k) in sub}
+
+        def graph():
+            full, keys = U.render(dag, fails)
+            return {k: full[k] for i, k in enumerate(keys) if i in sub and k in full}, keys
+        dsk, keys = graph()
+        idof = {k: i for i, k in enumerate(keys)}
+        real_req = U.map_req(call["req"], lambda i: keys[i])
+        try:
+            plain = ["ok", U._tuple_to_list(get_sync(dsk, real_req))]
+        except (U.Boom, ValueError) as e:
+            plain = ["raised", type(e).__name__]
+        # cachey drops what it likes between two calls
+        evicted = sorted(idof[k] for k in list(cache.cache.data) if rng.random() < call.get("evict", 0.0))
+        for i in evicted:
+            del cache.cache.data[keys[i]]
+        store_in = {idof[k]: v for k, v in cache.cache.data.items()}
+        dsk, keys = graph()
+        # the priorities get_async computes: order() of the graph AFTER Cache._start patched it
+        patched = dict(dsk)
+        for k in set(patched) & set(cache.cache.data):
+            patched[k] = DataNode(k, cache.cache.data[k])
+        try:
+            prio, ties = U.priorities(patched, idof)
+        except Exception:
+            return
+        ties_any = ties_any or ties
+        with cache:
+            try:
+                got = ["ok", U._tuple_to_list(get_sync(dsk, real_req))]
+            except (U.Boom, ValueError) as e:
+                got = ["raised", type(e).__name__]
+        execs = sorted(k for k, *_ in U.exec_log())
+        store_out = sorted([idof[k], v] for k, v in cache.cache.data.items())
+        # a task that raises is only noticed when it is executed: not when its result (of an earlier call, where it did
+        # not raise) or everything that needs it is in the store
+        must_run = {i for i in U.needed_ids(dag, flat, cache0=store_in) if i not in store_in}
+        if plain[0] == "raised" and got[0] == "ok" and not (set(fails) & must_run):
+            ctx.branch("session:raising-task-not-executed-(result-cached)")
+        elif got != plain:
+            ctx.fail("a call of a Cache session gives different values than the same call without the Cache",
+                     observed=got, expected=plain)
+        if got[0] == "ok":
+            want = U._tuple_to_list(U.map_req(call["req"], ev))
+            if got[1] != want:
+                ctx.fail("a call of a Cache session differs from the recursive evaluation", observed=got[1], expected=want)
+        again = sorted(set(execs) & set(store_in))
+        if again:
+            ctx.fail("a task whose result was in the Cache store was executed again", observed=again)
+        for k, v in store_out:
+            if v != ev(k):
+                ctx.fail("the Cache stores a value that is not the key's value", observed=[k, v], expected=ev(k))
+        model_calls.append([[n for n in enc_all if n[0] in sub], flat, prio, 1, 1, [0] * (len(nodes) + 2), evicted,
+                            sorted(fails)])
+        observed.append((call, got, store_out, execs, store_in, sub, fails))
+        if store_in:
+            ctx.branch("session:store-nonempty-at-start")
+            if set(store_in) - sub:
+                ctx.branch("session:store-holds-keys-outside-the-graph")
+            needed_plain = {i for i in U.needed_ids(dag, flat) if nodes[i][0] != "d"}
+            if got[0] == "ok" and len(execs) < len(needed_plain):
+                ctx.branch("session:reuse-saved-work")
+        if evicted:
+            ctx.branch("session:evicted-between-calls")
+        if got[0] == "raised":
+            ctx.branch("session:failing-call")
+        if len(sub) < len(nodes):
+            ctx.branch("session:call-on-a-proper-subgraph")
+    if ties_any:
+        # get_sync's order of execution is not determined by the priorities: only the oracles above
+        ctx.branch("session:priority-ties-(oracles-only)")
+        return
+    model = ctx.lean(Sym("cache_session"), [], model_calls)
+    ctx.eq("session: number of calls", len(model), len(observed))
+    seen_fail = False
+    for n, (m, (call, got, store_out, execs, store_in, sub, fails)) in enumerate(zip(model, observed)):
+        outcome, res, mstore, fired = m
+        ctx.eq(f"session call {n}: outcome", str(outcome[0]), "done" if got[0] == "ok" else "failed")
+        if got[0] == "ok":
+            ctx.eq(f"session call {n}: result", [x if isinstance(x, int) else str(x) for x in res],
+                   list(U.flatten_req(got[1])) if isinstance(call["req"], list) else [got[1]])
+        else:
+            ctx.eq(f"session call {n}: failing task", len(outcome) > 1 and outcome[1] in fails, True)
+        ctx.eq(f"session call {n}: store after the call", mstore, store_out)
+        ctx.eq(f"session call {n}: executed tasks", sorted(k for k in fired if nodes[k][0] == "t"), execs)
+        if seen_fail and store_in:
+            ctx.branch("session:store-survives-a-failed-call")
+        seen_fail = seen_fail or got[0] == "raised"
+
+
 class _Const:
     """a task function returning a constant that must not be visible to the graph conversion"""
 
@@ -393,7 +512,7 @@ def case_keylike(ctx, inp):
     ctx.branch("keylike:" + kind)
 
 
-CASES = {"prof": case_prof, "cprof": case_cprof, "cache": case_cache, "keylike": case_keylike}
+CASES = {"prof": case_prof, "cprof": case_cprof, "cache": case_cache, "keylike": case_keylike, "session": case_session}
 
 
 def _calls(rng, dag, n, fail_p=0.0, evict=False):
@@ -431,6 +550,21 @@ def generate(ctx):
         dag = U.gen_dag(rng, rng.randint(2, 12), p_data=rng.choice([0.05, 0.2]), p_alias=rng.choice([0.0, 0.1]),
                         shape=rng.choice(["chain", "wide"]))
         yield "cache", {"dag": dag, "calls": _calls(rng, dag, rng.choice([2, 3, 4]), evict=True), "seed": rng.randrange(1 << 30)}
+    for _ in range(ctx.n(300, 3000)):
+        dag = U.gen_dag(rng, rng.randint(3, 12), p_data=rng.choice([0.05, 0.2]), p_alias=rng.choice([0.0, 0.1]),
+                        shape=rng.choice(["chain", "wide"]))
+        nn = len(dag["nodes"])
+        calls = []
+        for _c in range(rng.choice([2, 3, 3, 4, 5])):
+            req = U.gen_req(rng, nn)
+            c = {"req": req, "evict": rng.choice([0.0, 0.0, 0.3, 0.7]),
+                 "extra": [rng.randrange(nn) for _e in range(rng.choice([0, 0, 1, 3, nn]))]}
+            if rng.random() < 0.2:
+                tasks = [i for i in U.needed_ids(dag, list(U.flatten_req(req))) if dag["nodes"][i][0] == "t"]
+                if tasks:
+                    c["fails"] = {str(rng.choice(tasks)): rng.choice(["Boom", "ValueError"])}
+            calls.append(c)
+        yield "session", {"dag": dag, "calls": calls, "seed": rng.randrange(1 << 30)}
 
 
 def search(ctx):
